@@ -67,7 +67,7 @@ H = [
          bound="definite length 3, payload symbolic (incl. surrogates ED A0..BF, overlongs E0 80..9F)", stubs=[]),
     dict(name="c11_l2_text_def4", props=["C11"], tier="quick", cost=20, unit=[CV + "::read_text::<&[u8]>", "String::from_utf8"],
          bound="definite length 4, payload symbolic (incl. F0 80..8F overlongs, F4 90.. > U+10FFFF)", stubs=[]),
-    dict(name="c11_l2_bytes_indef", props=["C11"], tier="thorough", cost=600,
+    dict(name="c11_l2_bytes_indef", unreached_because="ran out of 14 GB after 24 min", props=["C11"], tier="unreached", cost=600,
          unit=[CV + "::read_bytes::<&[u8]> (indefinite)"],
          bound="5 symbolic bytes after a 0x5f head, chunk heads one-byte with length ≤ 1, symbolic available length", stubs=[]),
     dict(name="c11_l2_text_indef_1_1", unreached_because="ran out of 14 GB after 29 min", props=["C11"], tier="unreached", cost=1800, unit=[CV + "::read_text::<&[u8]> (indefinite)"],
@@ -99,7 +99,7 @@ H = [
          bound="3 symbolic bytes (any byte values)", stubs=[]),
     dict(name="c07_b64_pad4", unreached_because="data_encoding base64 is out of reach (smaller inputs did not finish)", props=["C07"], tier="unreached", cost=600, unit=[PB + "::base64_decode"],
          bound="xy== / xyz= with x,y,z symbolic", stubs=[]),
-    dict(name="c07_clean3", props=["C07"], tier="thorough", cost=600, unit=[PB + "::clean_prefixed_byte_string"],
+    dict(name="c07_clean3", unreached_because="ran out of 14 GB after 4 min (String growth)", props=["C07"], tier="unreached", cost=600, unit=[PB + "::clean_prefixed_byte_string"],
          bound="0..=3 symbolic ASCII bytes (VT/FF excluded as don't-care)", stubs=[]),
     dict(name="c07_b64_padforms", unreached_because="no result in 10 min on a nearly concrete input", props=["C07"], tier="unreached", cost=1800, unit=[PB + "::base64_decode"],
          bound="\"QQ\" + two characters from {=, A}", stubs=[]),
@@ -132,7 +132,7 @@ H = [
     dict(name="c10_kuhn_2x2", props=["C10"], tier="quick", cost=30,
          unit=[CB + "::CBORValidator::augment_single_entry_assignment"],
          bound="every 2x2 compatibility matrix; assignment loop as in try_reassign_failed_single_entries; unwind 3", stubs=[]),
-    dict(name="c10_kuhn_3x3", props=["C10"], tier="thorough", cost=900,
+    dict(name="c10_kuhn_3x3", unreached_because="ran out of 14 GB after 5 min (3.5 M program steps)", props=["C10"], tier="unreached", cost=900,
          unit=[CB + "::CBORValidator::augment_single_entry_assignment"], bound="every 3x3 compatibility matrix; unwind 4", stubs=[]),
     dict(name="c10_ledger3", props=["C10"], tier="quick", cost=60,
          unit=[CB + "::CBORValidator::find_unconsumed_map_entry", CB + "::CBORValidator::collect_unconsumed_map_entries_matching",
@@ -203,7 +203,8 @@ _CB_STUBS = ["alloc::fmt::format -> fresh one-character string (message text nev
              "(statically reachable from every visitor callback; never reached with these documents)"]
 _QUICK_CB = {
     "C01": ["c00_ident_json_uint_int", "c00_ident_json_nint_int", "c00_ident_json_uint_big", "c00_ident_json_int_big",
-            "c00_value_json_eq", "c00_value_json_lt", "c00_value_json_u64_gt", "c00_value_json_size", "c09_range_json_int",
+            "c00_value_json_eq", "c00_value_json_lt", "c00_value_json_u64_gt", "c00_value_json_size", "c00_value_json_text_size",
+            "c09_range_json_int",
             "c00_value_json_neg_vs_uint", "c09_range_json_mixed"],
     "C02": ["c00_ident_cbor_uint_int", "c00_ident_cbor_nint_int", "c00_ident_cbor_number_float", "c00_ident_cbor_true_bool",
             "c00_value_cbor_eq", "c00_value_cbor_lt", "c09_range_cbor_int"],
@@ -213,6 +214,7 @@ _QUICK_CB = {
     "C09": ["c09_occ_repeating_cbor", "c09_occ_repeating_json", "c09_range_cbor_int", "c09_range_json_int",
             "c00_value_cbor_ne", "c00_value_json_ne", "c00_ident_cbor_nint_int", "c00_ident_json_uint_int"],
 }
+_CB_UNREACHED = {"c00_type2_cbor_literal": "visit_type2 on a literal node ran out of 14 GB after 22 min: one level of composition (type2 -> value) is already too much"}
 _CB_FINDINGS = {"c00_value_json_neg_vs_uint": "KF-C01-json-negative-vs-uint-literal", "c09_range_json_mixed": "KF-C01-json-mixed-range",
                 "c00_value_json_size_ge16": "KF-C01-size-16-rejects-everything"}
 
@@ -284,6 +286,14 @@ def _cb_entries():
             m = re.match(r"c00_ident_(?:json|cbor)_([a-z0-9]+)_([a-z]+)", n)
             bound = f"prelude name `{m.group(1)}`, schema without rules, one symbolic {m.group(2)} document" + (" (−2^64…2^64−1)" if side == "cbor" and m.group(2) == "int" else "")
             props = ["C09", "C01" if side == "json" else "C02", "C04"]
+        elif "_type2_" in n:
+            unit = [f"<{V} as Visitor>::visit_type2", f"<{V} as Visitor>::visit_value"]
+            bound = "Type2::UintValue / Type2::IntValue node (magnitude symbolic), integer document symbolic"
+            props = ["C01" if side == "json" else "C02"]
+        elif "_text_size" in n:
+            unit = [f"<{V} as Visitor>::visit_value", "verif_hooks_state::set_ctrl"]
+            bound = "`tstr .size N`, N ≤ 3 symbolic, one-character string document (ASCII or a 2-byte scalar)"
+            props = ["C01" if side == "json" else "C02"]
         elif "_value_" in n:
             unit = [f"<{V} as Visitor>::visit_value", "verif_hooks_state::set_ctrl"]
             if "_size" in n:
@@ -305,6 +315,9 @@ def _cb_entries():
         e = dict(name=n, props=props, tier="thorough", quick_for=quick_for, cost=30, unit=unit, bound=bound, stubs=_CB_STUBS, api=_cb_api(n))
         if n in _CB_FINDINGS:
             e["finding"] = _CB_FINDINGS[n]
+        if n in _CB_UNREACHED:
+            e["tier"] = "unreached"
+            e["unreached_because"] = _CB_UNREACHED[n]
         out.append(e)
     return out
 
